@@ -39,6 +39,11 @@ def reduce_program(src, cfg, max_rounds=6, **kw):
             return None
         return failure_class(failures[0][1])
 
+    return reduce_text(src, fails, max_rounds)
+
+
+def reduce_text(src, fails, max_rounds=200):
+    """fails(text) -> failure class (hashable, not None) or None; keeps the class constant"""
     want = fails(src)
     if want is None:
         return src
@@ -56,7 +61,6 @@ def reduce_program(src, cfg, max_rounds=6, **kw):
                 lines = cand
                 changed = True
                 break
-            # replace a compound block's body by its header + pass is covered by deleting children
         if not changed:
             # try unwrapping: delete a header line and dedent its body
             for (i, j) in _blocks(lines):
